@@ -129,7 +129,7 @@ def check(run, views, tier):
         g = gr.call_graph(F)
         pc = gr.cone(g, gr.PARSE_ROOTS)
         # functions reached only through the trace!/Display edge are the inspect cone's business (C02); keep parser / reader / decoder / constructors
-        fns = sorted(f for f in pc if not F.hir[f].get("from_expansion") and not f.startswith("<ipp::value::IppValue as std::fmt::Display>"))
+        fns = sorted(f for f in pc if not F.hir[f].get("from_expansion") and not f.startswith("<ipp::value::IppValue as std::fmt::Display>") and gr.standalone(F, f))
         # hash containers filled with peer-chosen names must use the keyed default hasher (HashDoS: an unkeyed hash makes inserts O(n))
         for adt_path, a in sorted(F.adts.items()):
             if not adt_path.startswith("ipp::") or a["file"].endswith(("client.rs",)):
